@@ -410,7 +410,7 @@ def replay_cascade(fl, FA, vals=None, seed=0, budget=300, **kw):
                 raise RuntimeError("defuzzifier failure")
             return s.next
 
-    pool = [float("nan"), 2.0, 5.0, 12.0, -3.0, 10.0, 0.0]
+    pool = [float("nan"), 2.0, 5.0, 12.0, -3.0, 10.0, 0.0, float("nan"), float("inf"), float("-inf")]
     cases, seen = 0, set()
     for it in range(budget):
         lp, lr = rng.random() < 0.5, rng.random() < 0.5
